@@ -56,7 +56,7 @@ theorem exec_seq_eq {fuel : Nat} {a b : St} {s s1 : State F} (h : exec fuel a s 
     exec fuel (.seq a b) s = if s1.ctl = .run then exec fuel b s1 else s1 := by
   rw [exec]; simp only [h]
 
-theorem exec_seq_run {fuel : Nat} {a b : St} {s s1 : State F} (h : exec fuel a s = s1) (hc : s1.ctl = .run) :
+theorem exec_seq_to {fuel : Nat} {a b : St} {s s1 : State F} (h : exec fuel a s = s1) (hc : s1.ctl = .run) :
     exec fuel (.seq a b) s = exec fuel b s1 := by
   rw [exec_seq_eq h, if_pos hc]
 
@@ -66,12 +66,12 @@ theorem exec_scope_eq {fuel : Nat} {a : St} {s s1 : State F} (h : exec fuel a s 
 
 /-! ### `while`, one iteration at a time -/
 
-theorem exec_while_step {fuel : Nat} {c : BE} {body : St} {s s1 : State F} (hok : c.ok s = true)
+theorem exec_while_to {fuel : Nat} {c : BE} {body : St} {s s1 : State F} (hok : c.ok s = true)
     (hc : c.eval s = true) (h1 : exec fuel body s = s1) (hr : s1.ctl = .run) :
     exec (fuel + 1) (.while c body) s = exec fuel (.while c body) s1 := by
   rw [exec]; simp only [hok, hc, if_true, h1, hr]
 
-theorem exec_while_done {fuel : Nat} {c : BE} {body : St} {s : State F} (hok : c.ok s = true)
+theorem exec_while_exit {fuel : Nat} {c : BE} {body : St} {s : State F} (hok : c.ok s = true)
     (hc : c.eval s = false) : exec (fuel + 1) (.while c body) s = s := by
   rw [exec]; simp [hok, hc]
 
